@@ -113,6 +113,22 @@ def choice_diff(req):
         distinct.add((repr(args), repr(kw)))
         if not (res["outcome"] == "raise" and res["exc"] == exc) and len(fails) < limit:
             fails.append({"args": enc(args), "kwargs": enc(kw), "expected": {"outcome": "raise", "exc": exc}, "observed": res})
+    # arguments are never modified, whatever their container type and however close their total is to a 'round' number
+    for ws0 in ([0.1] * 10, [0.7, 0.2, 0.1], [0.1] * 3, [1, 2, 3], [0.5, 0.5], [1e-17, 1.0], [3.3333333333333335, 3.3333333333333335, 3.333333333333333]):
+        cum0 = list(itertools.accumulate(ws0))
+        popn = ["g%d" % i for i in range(len(ws0))]
+        for mk in (list, tuple):
+            for form in ("weights", "cum_weights"):
+                arg = mk(ws0 if form == "weights" else cum0)
+                before = mk(arg)
+                p_arg = mk(popn)
+                res = _with_pos(Fraction(TWO32 - 1, TWO32), b.deterministic_choice, "unit", p_arg, arg) if form == "weights" else \
+                    _with_pos(Fraction(TWO32 - 1, TWO32), b.deterministic_choice, "unit", p_arg, cum_weights=arg)
+                evals += 1
+                same = arg == before and all(type(x) is type(y) and repr(x) == repr(y) for x, y in zip(arg, before)) and p_arg == mk(popn)
+                if not (res["outcome"] == "return" and res["value"] in popn and same) and len(fails) < limit:
+                    fails.append({"form": form, "container": mk.__name__, "argument_before": enc(list(before)), "argument_after": enc(list(arg)), "u": "(2^32-1)/2^32",
+                                  "expected": "a member of the population; arguments left exactly as given", "observed": res})
     # the function is pure: the SAME list objects, edited in place between calls, are read afresh on every call
     pop3 = ["g0", "g1", "g2"]
     ws = [1, 0, 0]
@@ -273,6 +289,10 @@ LIFECYCLE_TEXTS = [
     'def',
     'def e1 { splitters: uid return "A" weighted 1, "B" weighted 1 ',
     '',
+    'def e1 { salt: "x//1" splitters: uid return "A" weighted 1, "B" weighted 1, "C" weighted 1 }',
+    'def e1 { salt: "x//2" splitters: uid return "A" weighted 1, "B" weighted 1, "C" weighted 1 }',
+    'def e1 { salt: "a/*b*/c" splitters: uid return "A" weighted 1, "B" weighted 1, "C" weighted 1 }',
+    'def e1 { salt: "a/*d*/c" splitters: uid return "A" weighted 1, "B" weighted 1, "C" weighted 1 }',
 ]
 
 
@@ -289,9 +309,13 @@ def lifecycle_diff(req):
     texts = req.get("texts", LIFECYCLE_TEXTS)
     if req.get("maxlen", 3) <= 3 and not req.get("texts"):
         # quick tier: the four-step histories of the thorough tier use the whole alphabet; three-step ones a core subset
-        skip = ('def e2 {', 'def e1 { splitters: uid /* c */', 'def e1 { splitters: uid return "A" weighted 1, "B" weighted 1 ', 'def e1 { splitters: uid return "A" weighted 1 } def e2')
+        skip = ('def e2 {', 'def e1 { splitters: uid /* c */', 'def e1 { splitters: uid return "A" weighted 1, "B" weighted 1 ', 'def e1 { splitters: uid return "A" weighted 1 } def e2',
+                'def e1 { salt: "a/*')
         texts = [t for t in texts if not t.startswith(skip)]
-    inputs = [{"uid": "u1"}, {"uid": "u2"}, {"uid": 17}, {"uid": "u1", "extra": 1}]
+    # values that compare (and hash) equal but print differently follow each other: a result remembered per argument value
+    # instead of per printed key shows up against the per-call-fresh reference below
+    inputs = [{"uid": "u1"}, {"uid": "u2"}, {"uid": 17}, {"uid": "u1", "extra": 1}, {"uid": 1}, {"uid": True}, {"uid": 1.0}, {"uid": 0}, {"uid": False}, {"uid": -0.0},
+              {"uid": 2.0}, {"uid": 2}]
     sink = io.StringIO()
 
     def fresh(t):
@@ -312,7 +336,11 @@ def lifecycle_diff(req):
         valid[t] = dsl_ref.parse_text(t)[0] == "ok"
         if valid[t]:
             try:
-                ref[t] = behaviour(fresh(t))
+                # the reference answers every call on a brand-new evaluator, so nothing one call leaves behind can reach another
+                ref[t] = []
+                for kw in inputs:
+                    r = outcome(fresh(t), **kw)
+                    ref[t].append((r["outcome"], r.get("value") if r["outcome"] == "return" else r.get("exc")))
             except BaseException as e:   # noqa
                 return {"evaluations": 1, "sequences": 0, "valid_texts": 0, "invalid_texts": 0,
                         "failures": [{"history": [["new", 0, t]], "what": "a grammatical text does not compile: %s" % type(e).__name__}], "bound": "alphabet check"}
@@ -362,7 +390,7 @@ def lifecycle_diff(req):
         if len(fails) >= limit:
             break
     return {"evaluations": evals, "sequences": seqs, "failures": fails, "valid_texts": sum(valid.values()), "invalid_texts": len(texts) - sum(valid.values()),
-            "bound": "all sequences of length <= %d over {new/recompile(e_i, t)} with 2 evaluators x %d texts; 4 calls on every evaluator after every step" % (maxlen, len(texts))}
+            "bound": "all sequences of length <= %d over {new/recompile(e_i, t)} with 2 evaluators x %d texts; %d calls on every evaluator after every step, reference = a fresh evaluator per call" % (maxlen, len(texts), len(inputs))}
 
 
 CORPUS_EXTRA = [
